@@ -865,11 +865,37 @@ func errFields(c *core.Ctx) {
 			return true
 		})
 	}
+	// what a handler can put into an Error, it puts there through the exported API (NewError, AddDetail,
+	// Meta, …): a field that only unexported code stores (a marker the client's decoder sets on what it
+	// decoded) does not come from the handler and has nothing to send
+	userSettable := map[*types.Var]bool{}
+	{
+		var roots []*ast.FuncDecl
+		for _, fd := range p.AllFuncDecls(p.Connect) {
+			if !fd.Name.IsExported() {
+				continue
+			}
+			if fd.Recv != nil {
+				if rn := astx.RecvNamed(funcOf(info, fd)); rn == nil || !rn.Obj().Exported() {
+					continue
+				}
+			}
+			roots = append(roots, fd)
+		}
+		for _, fd := range callTree(p, info, roots, 3) {
+			for f := range accessOf(p, info, fd).stores {
+				userSettable[f] = true
+			}
+		}
+	}
 	var errFieldsList []*types.Var
 	for i := 0; i < est.NumFields(); i++ {
-		if touched[est.Field(i)] {
+		if touched[est.Field(i)] && userSettable[est.Field(i)] {
 			errFieldsList = append(errFieldsList, est.Field(i))
 		}
+	}
+	if len(errFieldsList) < 4 {
+		c.Unresolved("fields", "only %d field(s) of Error are stored through the exported API (code, message, details and metadata expected)", len(errFieldsList))
 	}
 	// accessors: methods of Error -> fields they read/store; constructors NewError/errorf store code+err
 	acc := map[*types.Func]fieldAccess{}
